@@ -245,6 +245,8 @@ def main():
         fns["from_details"] = t
         t, _ = take(te, te_c, r"^    pub\(crate\) fn name\(&self\) -> Option<&String>", "TypeEntry::name", rep, te_path, attrs=False)
         fns["name"] = t
+        t, _ = take(te, te_c, r"^    pub\(crate\) fn finalize\(&mut self, type_space: &mut TypeSpace\) -> Result<\(\)>", "TypeEntry::finalize", rep, te_path, attrs=False)
+        fns["finalize"] = t
         for f in FUNCS:
             t, _ = take(lib, lib_c, r"^    fn %s\b" % f, "TypeSpace::" + f, rep, lib_path, attrs=False)
             fns[f] = t
@@ -376,7 +378,7 @@ def main():
         # From<TypeEntryDetails> and TypeEntry::name are free functions here: Verus rejects
         # `requires/ensures` on trait impl methods, and impl blocks on external types.
         g.append("impl WrappedValue {\n" + fn_with_contract("wrapped_value_new", fns["wrapped_value_new"]) + "\n}\n\n")
-        g.append("impl TypeEntry {\n" + fn_with_contract("name", fns["name"]) + "\n}\n\n")
+        g.append("impl TypeEntry {\n" + fn_with_contract("name", fns["name"]) + "\n\n" + fn_with_contract("finalize", fns["finalize"]) + "\n}\n\n")
         g.append("impl From<TypeEntryDetails> for TypeEntry {\n" + fn_with_contract("from_details", fns["from_details"]) + "\n}\n\n")
         g.append("impl TypeSpace {\n")
         for f in FUNCS + ["convert_ref_type_tail", "id_for_schema", "add_type_with_name", "add_type", "add_ref_types_tail"]:
